@@ -540,7 +540,7 @@ func genRb(r *rand.Rand, tier string, emit func(string), count func(string)) {
 	g := &rbGen{r: r}
 	nSchemas := 40
 	if tier == "thorough" {
-		nSchemas = 1500
+		nSchemas = 250
 	}
 	// hand-made schema first: three levels, repeated and map of messages, JSON-name trap
 	fixed := "sub:m1,id:i32,items:r2,by_key:p2,tags:Rs,counts:Ms/i64,my_val:s;deep_sub:m2,val:s,n:i64;a:i32,b:s"
